@@ -101,6 +101,15 @@ def pixel_oracle(ctx):
         xf = scene.rand_xf(rng, general=0.6)
         if xf[0] * xf[3] - xf[1] * xf[2] == 0:
             xf = scene.IDENT
+        if kind == 7:
+            # curves hundreds of pixels long of which the surface sees a small window (zoomed-in content): forward
+            # differencing with many steps, edges that start far above / left of the surface
+            S = rng.choice([300, 800, 1500])
+            ops = scene.curvy_path(rng, S, S)
+            while ops and ops[0] == "Z":
+                ops = ops[1:]
+            ox, oy = rng.randrange(0, S - W), rng.randrange(0, S - H)
+            xf = (1.0, 0.0, 0.0, 1.0, float(-ox), float(-oy))
         if kind == 9:
             # strongly down-scaling transform with correspondingly large user-space coordinates: every tolerance the
             # code applies to curves must be a device-space tolerance
